@@ -21,7 +21,7 @@ from inline_snapshot import snapshot
 __all__ = [
     "Color", "Perm", "Outer", "DC", "DCD", "DCN", "AT", "PM", "NT", "NTD", "NoCode", "NoCodeBox", "BadCopy", "RaisesEq",
     "Unorderable", "REC", "rec", "ok", "mark", "check_eq", "check_le", "check_ge", "check_in", "G", "set_g",
-    "Is", "outsource", "snapshot", "defaultdict", "ident", "Plain", "EvilEq", "snapshot_alias", "NP", "NPBool",
+    "Is", "outsource", "snapshot", "defaultdict", "ident", "Plain", "EvilEq", "snapshot_alias", "NP", "NPBool", "check_example", "EXAMPLE_SRC",
 ]
 
 defaultdict = collections.defaultdict
@@ -284,6 +284,18 @@ def ok(eid):
 
 def mark(eid, what="at"):
     REC.append([eid, what])
+
+
+EXAMPLE_SRC = "from inline_snapshot import snapshot\n\ndef test_a():\n    assert 5 == snapshot()\n"
+
+
+def check_example(flags, changed):
+    """run a small example through inline_snapshot.testing.Example.run_inline; `changed` (usually a snapshot of the calling test) is
+    compared by the helper with the files its inner run changed"""
+    from inline_snapshot.testing import Example
+
+    Example(EXAMPLE_SRC).run_inline([f"--inline-snapshot={flags}"] if flags else [], changed_files=changed)
+    return True
 
 
 def check_eq(a, b):
